@@ -23,6 +23,7 @@
 import EG.Lemmas.LineProps
 import EG.Lemmas.ThickWidth1
 import EG.Lemmas.ThickAccumulator
+import EG.Lemmas.ThickTotal
 namespace EG.C17
 open EG EG.Line
 
@@ -108,7 +109,15 @@ theorem line_points_translate (l : Line) (d : Pt) :
 
 /-! ## Stroked lines (`Thick.thickPoints l w` = the points of
 `Line::new(s, e).into_styled(PrimitiveStyle::with_stroke(c, w)).pixels()` in emission order;
-`none` would mean that a loop bound of the model was exceeded, see EG/Model/ThickLine.lean) -/
+`none` would mean that a loop bound or the step budget of the model was exceeded, see
+EG/Model/ThickLine.lean; `thick_points_total`: that never happens) -/
+
+/-- The model of a stroked line is total: for every line and every stroke width it yields a pixel
+list. Neither the bound of the two inner loops (`next_parallel`, `ThickPoints::next`: at most two
+rounds each) nor the step budget is ever exhausted, so the model never answers "stuck" and never
+truncates; the theorems below that assume `thickPoints l w = some ps` are not vacuous for any input. -/
+theorem thick_points_total (l : Line) (w : Nat) : ∃ ps, Thick.thickPoints l w = some ps :=
+  Thick.thickPoints_total l w
 
 /-- For width 1 the stroked line equals `points()` (same points, same order). -/
 theorem thick_width1_eq_points (l : Line) : Thick.thickPoints l 1 = some (points l) :=
@@ -121,6 +130,15 @@ theorem thick_contains_thin (l : Line) (w : Nat) (hw : 1 ≤ w) (hw2 : w ≤ 214
     (∃ more, ps = points l ++ more) ∧ ∀ p ∈ points l, p ∈ ps := by
   obtain ⟨more, hm⟩ := Thick.thickPoints_prefix l w hw hw2 ps h
   exact ⟨⟨more, hm⟩, fun p hp => by rw [hm]; exact List.mem_append_left _ hp⟩
+
+/-- Unconditional form: the pixel list exists and starts with `points()`. -/
+theorem thick_contains_thin_total (l : Line) (w : Nat) (hw : 1 ≤ w) (hw2 : w ≤ 2147483647) :
+    ∃ ps, Thick.thickPoints l w = some ps ∧ (∃ more, ps = points l ++ more) ∧
+      ∀ p ∈ points l, p ∈ ps := by
+  obtain ⟨ps, h⟩ := thick_points_total l w
+  exact ⟨ps, h, thick_contains_thin l w hw hw2 ps h⟩
+
+example : (1 : Nat) ≤ 85 ∧ (85 : Nat) ≤ 2147483647 := by decide
 
 /-- Stroke width 0 draws nothing. -/
 theorem thick_width0_empty (l : Line) : Thick.thickPoints l 0 = some [] :=
